@@ -1398,8 +1398,9 @@ class BaseImage(metaclass=ImageMeta):
             else:  # middle
                 top = (height - lines) // 2
                 bottom = height - lines - top
-            top = f"{' ' * width}\n" * top
-            bottom = f"\n{' ' * width}" * bottom
+            # The padding lines must span the render when it is wider than the padding
+            top = f"{' ' * max(width, cols)}\n" * top
+            bottom = f"\n{' ' * max(width, cols)}" * bottom
         else:
             top = bottom = ""
 
